@@ -283,6 +283,38 @@ class P:
         return True
 ''')
 
+case('multi-statement value helper used as an if test is hoisted', '''
+class S:
+    def q(self, itask, msgs):
+        should_poll = False
+        for m in msgs:
+            if self.pm(itask, m):
+                should_poll = True
+        if should_poll:
+            self.polls.append(itask)
+''', '''
+class S:
+    def q(self, itask, msgs):
+        if self._proc(itask, msgs):
+            self.polls.append(itask)
+
+    def _proc(self, itask, task_msgs):
+        should_poll = False
+        for m in task_msgs:
+            if self.pm(itask, m):
+                should_poll = True
+        return should_poll
+''', '''
+class S:
+    def q(self, itask, msgs):
+        should_poll = False
+        for m in msgs:
+            if self.pm(itask, m):
+                should_poll = True
+        if should_poll:
+            self.polls.append(itask)
+''')
+
 case('identity on the reference tree', REF1, REF1, REF1)
 
 
